@@ -1280,5 +1280,6 @@ pub fn alien_directs() -> Vec<gecs::prelude::EntityDirectAny> {
     from_world::<crate::worlds::wa::WA>(&mut out);
     from_world::<crate::worlds::w16::W16>(&mut out);
     from_world::<crate::worlds::wz::WZ>(&mut out);
+    from_world::<crate::worlds::wf::WF>(&mut out);
     out
 }
